@@ -72,9 +72,15 @@ SHAPES = {
     'bare1': {'entries': ['b'], 'bare': True},          # Waveform(hw, name, wire) without a list
     # the recorder is created after the simulator has already been obtained once (it must still be clocked)
     'regq1_late': {'entries': ['b', 'b.q'], 'late': True},
+    # the simulator class is instantiated directly on the system that already has its simulator (what a tool does)
+    'regq1_direct': {'entries': ['b', 'b.q'], 'direct': True},
     # the watched register sits in a sub-block with its own (ungated) clock driver, served before the recorder's domain
     'regq4_domain': {'entries': ['a.qport', 'a', 'a.q'], 'W': 4, 'domain': True},
     # '<x>.gq' = output of a Reg fed by x whose OWN (leaf-level) clock driver is enabled by x: a gated cell next to the recorder
+    # '<x>.sn' = a wire with the short name 'z' inside a sub-block of its own, fed by a Buf from x: two different watched
+    # wires that share their short name
+    'samename': {'entries': ['a.sn', 'b.sn'], 'W': 4},
+    'samename_mix': {'entries': ['b.sn', 'a', 'a.sn'], 'W': 4},
     'leafgate1': {'entries': ['b', 'b.gq']},
     'leafgate4': {'entries': ['a.gq', 'a'], 'W': 4},
 }
@@ -203,6 +209,12 @@ def build(shape):
                 regs[b] = py4hw.Reg(g, 'reg_' + b, w, aux['q' + b])
             else:
                 regs[b] = py4hw.Reg(hw, 'reg_' + b, w, aux['q' + b])
+        if b + '.sn' in kinds:
+            g = py4hw.Logic(hw, 'sn_' + b)
+            aux['z' + b] = g.wire('z', w.getWidth())
+            g.addIn('i', w)
+            g.addOut('z', aux['z' + b])
+            py4hw.Buf(g, 'buf', w, aux['z' + b])
         if b + '.gq' in kinds:
             aux['g' + b] = hw.wire('g' + b, w.getWidth())
             regs['g' + b] = py4hw.Reg(hw, 'greg_' + b, w, aux['g' + b])
@@ -222,6 +234,8 @@ def build(shape):
             o, w = regs[b].outPorts[0], aux['q' + b]
         elif k == 'gq':
             o, w = aux['g' + b], aux['g' + b]
+        elif k == 'sn':
+            o, w = aux['z' + b], aux['z' + b]
         else:
             raise ValueError(e)
         if k in ('in', 'out', 'qport') and o.wire is not w:
@@ -235,6 +249,9 @@ def build(shape):
         hw.getSimulator()
     c.wf = py4hw.Waveform(hw, 'wf', objs[0] if sp.get('bare') else list(objs))
     c.sim = hw.getSimulator()
+    if sp.get('direct'):
+        from py4hw.simulation import Simulator
+        c.sim = Simulator(hw)
     c.free = [c.base_wire[b] for b in bases]
     c.hist = {b: [] for b in bases}      # value per simulated cycle since power-up
     c.start = 0                          # first recorded cycle (after the last clear)
@@ -285,7 +302,7 @@ def apply(c, act, sanity=True):
         # the harness's own log of what the wire carries when clk is entered (wires that need no settling)
         t = len(c.hist[c.bases[0]]) - 1
         for (b, k, _), w in zip(c.specs, c.wires):
-            if k != 'out' and w.get() != ref.expected(k, c.hist[b], t):
+            if k not in ('out', 'sn') and w.get() != ref.expected(k, c.hist[b], t):
                 raise core.HarnessError('wire %s carries %r going into cycle %d, reference says %r'
                                         % (w.name, w.get(), t, ref.expected(k, c.hist[b], t)))
     c.sim.clk(n)
